@@ -105,6 +105,12 @@ func encodeVal(enc string, x int64) []byte {
 			s += "-long-long-value"
 		}
 		return append([]byte{byte(len(s) >> 8), byte(len(s))}, s...)
+	case "opt4":
+		// every third value is absent (empty encoding), the others are 4 bytes
+		if x%3 == 0 {
+			return []byte{}
+		}
+		return le(uint64(x*2654435761), 4)
 	case "te":
 		b := make([]byte, 6)
 		binary.LittleEndian.PutUint32(b, uint32(x*2654435761))
@@ -163,6 +169,29 @@ func valsSmallStrings(r *rand.Rand, n int) [][]byte {
 		b := []byte{0, byte(l)}
 		for j := 0; j < l; j++ {
 			b = append(b, byte('a'+(i+j)%26))
+		}
+		vals[i] = b
+	}
+	return vals
+}
+
+// variable-width values of widely different sizes (0..600 payload bytes): the positional
+// leaf array then spans many bitmap words and several select-index entries
+func valsLongStrings(r *rand.Rand, n int) [][]byte {
+	vals := make([][]byte, n)
+	for i := range vals {
+		l := r.Intn(40)
+		switch r.Intn(6) {
+		case 0:
+			l = 0
+		case 1:
+			l = 200 + r.Intn(400)
+		case 2:
+			l = 63 + r.Intn(3)
+		}
+		b := []byte{byte(l >> 8), byte(l)}
+		for j := 0; j < l; j++ {
+			b = append(b, byte('a'+(i*7+j)%26))
 		}
 		vals[i] = b
 	}
